@@ -65,6 +65,7 @@ type Run struct {
 	byTag     map[string]int
 	byTagEx   map[string]Violation
 	Assume    []string
+	Extra     map[string]any // added to the coverage section of the evidence (parent process only)
 	replayIn  string
 	shardOut  string         // child mode: write the raw result here instead of evidence
 	allViol   map[string]*Violation // child mode: every (clause,tags) class, smallest example
@@ -99,6 +100,9 @@ func Start(id, level string) *Run {
 }
 
 func (r *Run) Thorough() bool { return r.Tier == "thorough" }
+
+// IsShard is true in a child process of RunShards.
+func (r *Run) IsShard() bool { return r.shardOut != "" }
 
 // FirstShard is true for an unsharded run and for shard 0 of a sharded one (work that must happen once).
 func (r *Run) FirstShard() bool {
@@ -237,11 +241,16 @@ type Coverage struct {
 	Extra              map[string]any
 }
 
-func (r *Run) writeReplay(v *Violation) string {
+func (r *Run) replayDir() string {
 	dir := filepath.Join(Root(), "replays", r.ID)
 	if d := os.Getenv("VERIF_EVIDENCE_DIR"); d != "" {
 		dir = filepath.Join(d, "replays")
 	}
+	return dir
+}
+
+func (r *Run) writeReplay(v *Violation) string {
+	dir := r.replayDir()
 	_ = os.MkdirAll(dir, 0o755)
 	bz, _ := json.MarshalIndent(map[string]any{"property": r.ID, "clause": v.Clause, "tags": v.Tags, "msg": v.Msg, "cost": v.Cost, "history": v.History}, "", " ")
 	h := sha256.Sum256(bz)
@@ -273,6 +282,9 @@ func (r *Run) Finish(c Coverage) {
 		"distinct_outcomes":             len(r.outcomes),
 	}
 	for k, v := range c.Extra {
+		cov[k] = v
+	}
+	for k, v := range r.Extra {
 		cov[k] = v
 	}
 	if len(r.samples) == 0 {
